@@ -100,6 +100,7 @@ func dfs(name string, procc *runtime.Script, sPath *searchPath, p *param) error 
 	verifEv("push", name, sPath.path, sPath.nodeMap, p.retMap)
 
 	if _, ok := p.retMap[name]; ok {
+		sPath.Pop()
 		verifEv("early", name, sPath.path, sPath.nodeMap, p.retMap)
 		return nil
 	}
